@@ -20,7 +20,7 @@ CHECKS = {
     ),
     "C12": dict(
         technique="exhaustive product of key permutations x shapes x diag/dense x history layouts on kernel.tune(), plus a product of real Engine runs; numpy float64 reference in ravel_pytree order",
-        text="kernel.tune() of NUTS and HMC is executed for every permutation of 2-3 position keys, leaf shape assignment, diagonal/dense mode, history-dict layout (listed, sorted, reversed, with a foreign key) and SLOW/FAST epoch on synthetic histories with pairwise distinct variances and non-zero covariances; real Engine runs (store_kernel_states) cover key orders x kernels x diag/dense x co-kernel (none, RW without history, second HMC) x slow epochs (one, two identical, two different) x warm-up thinning. After every slow epoch the stored inverse mass matrix must equal the regularised variance/covariance of that epoch's stored history of the kernel's own keys in ravel_pytree order.",
+        text="kernel.tune() of NUTS and HMC is executed for every permutation of 2-3 position keys, leaf shape assignment, diagonal/dense mode, history-dict layout (listed, sorted, reversed, with a foreign key) and SLOW/FAST epoch on synthetic histories with pairwise distinct variances and non-zero covariances (also far from zero relative to their spread); real Engine runs (store_kernel_states) cover key orders x kernels x diag/dense x co-kernel (none, RW without history, second HMC) x slow epochs (one, two identical, two different) x warm-up thinning. After every slow epoch the stored inverse mass matrix must equal the regularised variance/covariance of that epoch's stored history of the kernel's own keys in ravel_pytree order.",
         note="jax.flatten_util.ravel_pytree defines 'flat coordinate i'; tolerance 1e-4 + 2e-4|ref|; quick runs a covering subset of the engine product (thorough: full product, 288 engines).",
         ref="3/C12",
     ),
@@ -80,7 +80,7 @@ CHECKS = {
     ),
     "C13": dict(
         technique="scripted-PRNG seam capturing Gamma shape and categorical logits on the real kernels over full parameter lattices, with closed-form and model-joint ratio oracles",
-        text="tau2_gibbs_kernel: full product of 5 penalties (7 thorough; rank 0 to full, dim 2-5) plus dim-20 scaled penalties whose matrix_rank differs from the number of float32 eigenvalues above 1e-6, x a x b x 6 coefficient vectors incl. null-space vectors; the kernel is built ONCE per (penalty, a) and the b lattice, a second a and a changed rank reach it only through the model state; the real transition runs with the gamma seam answering {1, 1/2, 2} and recording the shape parameter. Oracles: closed form a + rk(K)/2 and b + beta'K beta/2, and a ratio test log joint_model(tau2) - log IG(tau2; a_g, b_g) constant over 6 tau2 values on the real model's joint. finite_discrete_gibbs_kernel: 22 specs (29 thorough) covering FiniteDiscrete, Bernoulli and explicit outcomes, sizes 2-4, likelihood none / Normal mean / mixture indicator / value of a weak variable with a distribution, with 3 and 150+ observations (|log joint| up to ~5000), crossed with every ordered pair of states back-to-back and every forced outcome; softmax(logits) equals the exact normalised joint.",
+        text="tau2_gibbs_kernel: full product of 5 penalties (7 thorough; rank 0 to full, dim 2-5) plus dim-20 scaled penalties whose matrix_rank differs from the number of float32 eigenvalues above 1e-6, x a x b x 6 coefficient vectors incl. null-space vectors; the kernel is built ONCE per (penalty, a); the b lattice, a second a, a changed rank, a re-weighted same-rank penalty and a rank-one penalty (with rank) reach kernel and model only through the model state; the real transition runs with the gamma seam answering {1, 1/2, 2} and recording the shape parameter. Oracles: closed form a + rk(K)/2 and b + beta'K beta/2, and a ratio test log joint_model(tau2) - log IG(tau2; a_g, b_g) constant over 6 tau2 values on the real model's joint. finite_discrete_gibbs_kernel: 32 specs (39 thorough) covering FiniteDiscrete, Bernoulli and explicit outcomes, sizes 2-4, likelihood none / Normal mean / mixture indicator / value of a weak variable with a distribution / diamond of cached nodes sigma = f(z), mean = g(sigma, z) in both input orders (Calc or weak Var, keyword or positional distribution arguments), with 3 and 150+ observations (|log joint| up to ~5000), crossed with every ordered pair of states back-to-back and every forced outcome; softmax(logits) equals the exact normalised joint.",
         note="Lattices only; jax.random.gamma / categorical trusted as samplers (what is checked is the parameters liesel hands them and the use of the answer); tolerances 1e-5 relative (parameters), ratio test 0.005 (dim <= 5) / 0.02 (dim 20) + 5e-7*|log joint| (bug effect >= 3.4), probabilities 1e-5 + 2e-6*max|logit|; exceptions thrown by liesel on valid input count as violations.",
         ref="3/C13",
     ),
@@ -116,13 +116,13 @@ CHECKS = {
     ),
     "C10": dict(
         technique="exhaustive configuration-lattice enumeration on the real engine with key-recording tracer kernels; differential bit-equality of complete runs plus a key-distinctness / split-lineage oracle",
-        text="Every configuration of a bounded lattice - engine seed x chains <=3 (thorough 4) x (kernels, generators) x epoch schedules <=2 (thorough 3) epochs x every chunk divisor x jitter {none, element-wise, non-element-wise sum, key-using} x {replicated, per-chain} initial state - is built and run on the real EngineBuilder/Engine 2-3 + #chains times, with all stored leaves compared bit for bit (same seed twice, int vs PRNGKey, one chain perturbed); tracer kernels, generators and jitter functions record the raw key of every call (init, start, transition, end, tune, end-warmup, generate, jitter), and the set must be duplicate-free and free of split-lineage relations (also w.r.t. the engine's carry key and the builder's keys); the first stored sample must equal jitter(initial value) exactly. Reproducibility is additionally checked ACROSS interpreters: 2 configurations with >= 2 key-jittered position keys are re-run in up to 3 fresh processes whose string-hash seeds give different set iteration orders, and digests of all stored leaves are compared.",
+        text="Every configuration of a bounded lattice - seed form (constructor int / PRNGKey; set_engine_seed int / PRNGKey / per-chain key array) x engine seed x chains <=3 (thorough 4) x (kernels, generators) x epoch schedules <=2 (thorough 3) epochs x every chunk divisor x jitter {none, element-wise, non-element-wise sum, key-using; every jittered position key has its own, different function} x {replicated, per-chain} initial state - is built and run on the real EngineBuilder/Engine 2-3 + #chains times, with all stored leaves compared bit for bit (same seed twice, int vs PRNGKey, one chain perturbed); tracer kernels, generators and jitter functions record the raw key of every call (init, start, transition, end, tune, end-warmup, generate, jitter), and the set must be duplicate-free and free of split-lineage relations (also w.r.t. the engine's carry key and the builder's keys); the first stored sample must equal jitter(initial value) exactly. Reproducibility is additionally checked ACROSS interpreters: 2 configurations with >= 2 key-jittered position keys are re-run in up to 3 fresh processes whose string-hash seeds give different set iteration orders, and digests of all stored leaves are compared.",
         note="Legacy uint32[2] keys; lineage searched for split fan-out <=4, depth <=2; the configuration product is complete on reference schedules and strided (rotating offset) across the schedule lattice; RW/HMC/NUTS/IWLS used for bit-equality, independence and initial values only; an exception raised in a liesel frame on a valid configuration counts as a violation.",
         ref="3/C10",
     ),
     "C19": dict(
         technique="exhaustive enumeration of error-code arrays on the real log -> summary -> data-frame pipeline with a counting reference; one-chain-per-pattern engine sweep; exact round-trip comparison for ArviZ and pickle",
-        text="Pipeline: for every layout (chains <=2 [thorough 4] x warm-up {0,1,2} x posterior {0,1,2} transitions in every epoch split x chunking x kernel set) EVERY assignment of error codes to every (kernel, chain, transition) cell (1.1e4 quick / 8.5e4 thorough) is pushed through the real SamplingResults.get_error_log -> _make_error_summary -> Summary.error_df and compared with a counting reference per kernel, code, message, chain and phase. Engine: a scripted-error kernel realises all 3^6 (3^8 thorough) single-chain patterns in one run (one chain per pattern), plus thinned, two-kernel and no-warm-up runs; full Summary, sample_info, ArviZ conversion (with/without warm-up) and the pickle round trip are compared exactly with what is stored.",
+        text="Pipeline: for every layout (chains <=2 [thorough 4] x warm-up {0,1,2} x posterior {0,1,2} transitions in every epoch split x chunking x kernel set incl. two kernels of the same class with overlapping codes and a kernel whose error book documents a negative code) EVERY assignment of error codes to every (kernel, chain, transition) cell (1.1e4 quick / 8.5e4 thorough) is pushed through the real SamplingResults.get_error_log -> _make_error_summary -> Summary.error_df and compared with a counting reference per kernel, code, message, chain and phase. Engine: a scripted-error kernel realises all 3^6 (3^8 thorough) single-chain patterns in one run (one chain per pattern), plus thinned, two-kernel and no-warm-up runs; full Summary, sample_info, ArviZ conversion (with/without warm-up) and the pickle round trip are compared exactly with what is stored.",
         note="Pipeline-level SamplingResults are filled by hand the way the engine fills them; error_df is evaluated on a Summary shell; the 'relative' column is not checked; warmup_size_per_chain is compared with stored warm-up transitions; the engine oracle counts from the kernel's table, not from stored infos; any exception raised by liesel on a valid input is a violation; one kernel documents an error code it never returns, so cross-kernel leakage shows as a wrong entry.",
         ref="3/C19",
     ),
